@@ -26,13 +26,6 @@ theorem ite_nil' {α} {c : Prop} [Decidable c] {x : List α} (hx : x ≠ [])
   · simp [hc] at h; exact absurd h hx
   · exact hc
 
-theorem sizeDropped_nil {sz : SizeOpts} (h : sizeDropped sz = []) : arraySize sz = sz := by
-  unfold sizeDropped at h
-  have h' := ite_nil' (by simp) h
-  cases sz with
-  | mk mn mx u =>
-    cases mn <;> cases mx <;> simp_all [arraySize]
-
 theorem num_roundtrip (i : Bool) (mult : Option Int) (mn mx : Option Q) (ex : Bool) :
     toSchemaF (numDecl i mult mn mx ex) = .num i mult mn mx ex := by
   cases i <;> cases mn <;> cases mx <;> simp [numDecl, toSchemaF, numSchema, signMin, signMax]
@@ -131,17 +124,13 @@ theorem inverse_core (ρ : String → FieldDecl) (hρ : RefsAreClasses ρ) :
       simp only [issues] at h
       exact ite_nil (by simp) h
     simp [schemaToDecl, toSchemaF, hv]
-  | .arrAny sz, h => by
-    simp only [issues] at h
-    simp [schemaToDecl, toSchemaF, sizeDropped_nil h]
+  | .arrAny sz, _ => by simp [schemaToDecl, toSchemaF]
   | .arrOf s sz, h => by
     simp only [issues] at h
-    obtain ⟨h1, h2⟩ := append_nil_of_isEmpty h
-    simp [schemaToDecl, toSchemaF, sizeDropped_nil h1, normReq, inverse_core ρ hρ s h2]
+    simp [schemaToDecl, toSchemaF, normReq, inverse_core ρ hρ s h]
   | .arrPos ss addl sz, h => by
     simp only [issues] at h
-    obtain ⟨h1, h2⟩ := append_nil_of_isEmpty h
-    simp [schemaToDecl, toSchemaF, sizeDropped_nil h1, normReq, inverse_coreL ρ hρ ss h2]
+    simp [schemaToDecl, toSchemaF, normReq, inverse_coreL ρ hρ ss h]
   | .mapAny addlKw mn mx, h => by
     simp only [issues] at h
     obtain ⟨h1, h2⟩ := append_nil_of_isEmpty h
@@ -219,15 +208,5 @@ theorem class_roundtrip (ρ : String → FieldDecl) (hρ : RefsAreClasses ρ) (n
     simp only [hcol', Bool.false_eq_true, if_false, normReq, ih, names_toSchemaP,
       names_schemaToDeclP]
     rw [canonReq_roundtrip _ _ _ hdn]
-
-/-- removing names that are not in the list leaves it unchanged -/
-theorem requiredPost_id (dn req : List String) (h : ∀ n ∈ dn, n ∉ req) :
-    requiredPost dn req = req := by
-  induction dn generalizing req with
-  | nil => rfl
-  | cons d ds ih =>
-    have hd : d ∉ req := h d (by simp)
-    simp only [requiredPost, List.foldl_cons, List.erase_of_not_mem hd]
-    exact ih req (fun n hn => h n (by simp [hn]))
 
 end Typedpy
